@@ -19,8 +19,14 @@ pub enum Org {
     Idn,
     Localhost,
     Android,
+    /// host = RP ID of 33 bytes (one more than a 32-byte boundary)
+    Long33,
+    /// origin on a sub-domain, RP ID of 64 bytes
+    Long64,
 }
-pub const ORGS: [Org; 6] = [Org::HostIsRp, Org::SubDomain, Org::Port, Org::Idn, Org::Localhost, Org::Android];
+pub const ORGS: [Org; 8] = [Org::HostIsRp, Org::SubDomain, Org::Port, Org::Idn, Org::Localhost, Org::Android, Org::Long33, Org::Long64];
+const LONG33: &str = "a-long-relying-party.example3.com";
+const LONG64: &str = "accounts.a-rather-long-relying-party-identifier.example-64.co.uk";
 pub const FP: &str = "B3:5B:68:D5:CE:84:50:55:7C:6A:55:FD:64:B5:1F:EA:C1:10:CB:36:D6:A3:52:1C:59:48:DB:3A:38:0A:34:A9";
 pub fn fp_bytes() -> Vec<u8> {
     FP.split(':').map(|h| u8::from_str_radix(h, 16).unwrap()).collect()
@@ -34,6 +40,8 @@ impl Org {
             Org::Port => (None, "example.com", "https://example.com:8443".into()),
             Org::Idn => (Some("xn--bcher-kva.example.com"), "xn--bcher-kva.example.com", "https://www.xn--bcher-kva.example.com".into()),
             Org::Localhost => (None, "localhost", "http://localhost:8080".into()),
+            Org::Long33 => (None, LONG33, format!("https://{LONG33}")),
+            Org::Long64 => (Some(LONG64), LONG64, format!("https://login.{LONG64}")),
             Org::Android => (Some("example.com"), "example.com", format!("android:apk-key-hash:{}", b64::url_nopad(&fp_bytes()))),
         }
     }
